@@ -13,6 +13,7 @@ texts that their parsers `P` map to themselves (print/parse law of std and chron
 harness on every atom it meets).
 -/
 import RioModel.Proofs.JsonAction
+import RioModel.Proofs.JsonSchema
 set_option linter.unusedSimpArgs false
 
 namespace Rio.C06
@@ -190,6 +191,44 @@ theorem deRequest_wf (P : Codec) (hP : Codec.Canonical P) (j : Json) (q : Reques
     obtain ⟨_, _, _, _, _, _, _, _, _, _, _, _, ra, hra, ca, hca, _, _, rfl⟩ := h
     exact ⟨atomOpt _ hP.1 _ ra hra, atomOpt _ hP.2 _ ca hca⟩
   · exact absurd h (by simp)
+
+/-! ### Tie to the source by regeneration (tools/consts.d/w4_serde.py) -/
+
+/-- The serde schema extracted from /repo/src on this run – fields in declaration order with
+their key, Rust type and `#[serde(..)]` attributes, type-level attributes (`untagged`), variant
+order of the union, renames of `TextAction` – is literally the schema the model was transcribed
+from.  Any change to one of the derives breaks this theorem (and the build of this module). -/
+theorem schema_tie :
+    Rio.Consts.serdeActionAttrs = [] ∧
+    Rio.Consts.serdeAction.map (·.2.1) =
+      ["Option<StatusCodeUpdate>", "Vec<HeaderFilterAction>", "Vec<BodyFilterAction>",
+       "LinkedHashSet<String>", "Vec<RuleTrace>", "LinkedHashSet<String>", "Option<LogOverride>"] ∧
+    Rio.Consts.serdeAction.map (·.2.2) = ["", "", "", "", "default", "default", ""] ∧
+    Rio.Consts.serdeBodyFilterAttrs = ["untagged"] ∧
+    Rio.Consts.serdeBodyFilter.map (·.1) = ["Text", "HTML"] :=
+  ⟨schema_Action.1, by rw [schema_Action.2]; rfl, by rw [schema_Action.2]; rfl, schema_BodyFilter.1,
+    by rw [schema_BodyFilter.2]; rfl⟩
+
+/-- The keys the model's serialisers emit are the extracted keys in the extracted order, for
+every type on the path. -/
+theorem ser_keys_tie (a : Action) (q : Request) :
+    objKeys (serAction a) = schemaKeys Rio.Consts.serdeAction ∧
+    objKeys (serRequest q) = schemaKeys Rio.Consts.serdeRequest ∧
+    (∀ s, objKeys (serStatusCodeUpdate s) = schemaKeys Rio.Consts.serdeStatusCodeUpdate) ∧
+    (∀ l, objKeys (serLogOverride l) = schemaKeys Rio.Consts.serdeLogOverride) ∧
+    (∀ t, objKeys (serRuleTrace t) = schemaKeys Rio.Consts.serdeRuleTrace) ∧
+    (∀ f, objKeys (serHeaderFilterAction f) = schemaKeys Rio.Consts.serdeHeaderFilterAction) ∧
+    (∀ f, objKeys (serBodyFilterAction f) = schemaKeys Rio.Consts.serdeBodyFilterAction) ∧
+    (∀ f, objKeys (serHeaderFilter f) = schemaKeys Rio.Consts.serdeHeaderFilter) ∧
+    (∀ f, objKeys (serHtmlBodyFilter f) = schemaKeys Rio.Consts.serdeHtmlBodyFilter) ∧
+    (∀ f, objKeys (serTextBodyFilter f) = schemaKeys Rio.Consts.serdeTextBodyFilter) ∧
+    (∀ p, objKeys (serPathAndQuery p) = schemaKeys Rio.Consts.serdePathAndQuery) ∧
+    (∀ h, objKeys (serHeader h) = schemaKeys Rio.Consts.serdeHeader) ∧
+    [TextAction.append, .prepend, .replace].map TextAction.name = schemaKeys Rio.Consts.serdeTextAction :=
+  ⟨serAction_keys a, serRequest_keys q, serStatusCodeUpdate_keys, serLogOverride_keys,
+   serRuleTrace_keys, serHeaderFilterAction_keys, serBodyFilterAction_keys, serHeaderFilter_keys,
+   serHtmlBodyFilter_keys, serTextBodyFilter_keys, serPathAndQuery_keys, serHeader_keys,
+   textAction_names⟩
 
 /-! ### Non-vacuity: a concrete action with every kind of content, and a concrete request -/
 
